@@ -5,6 +5,7 @@ a path forks is SymBool.__bool__ (-> Ctx.decide).  Exploration is depth-first: a
 of boolean decisions; after a path ends, the deepest decision whose other side is feasible and
 unexplored is flipped and the scenario function is executed again with that prefix.
 """
+import os
 import time
 import z3
 
@@ -1169,11 +1170,34 @@ class Result:
         return not self.violations and not self.inconclusive
 
 
+def _arm_path_timer(c, seconds):
+    """One path of the code under test that runs longer than `seconds` is interrupted with BudgetExceeded (again every 5 s until the
+    exception gets through the bare except clauses of the code under test): a loop that never asks the solver anything would otherwise
+    hang the configuration.  Harnesses whose property includes termination turn it into a violation candidate."""
+    import signal
+    import threading
+    if threading.current_thread() is not threading.main_thread():
+        return
+    if seconds is None:
+        signal.setitimer(signal.ITIMER_REAL, 0)
+        return
+
+    def on_alarm(sig, frm):
+        e = BudgetExceeded("seconds per path")
+        c.sticky = e
+        c.stats.budget += 1
+        raise e
+    signal.signal(signal.SIGALRM, on_alarm)
+    signal.setitimer(signal.ITIMER_REAL, seconds, 5.0)
+
+
 def explore(fn, *, timeout_ms=60000, max_paths=200000, max_decisions=20000, max_violations=5,
-            max_seconds=None, sample_paths=3, max_concretise=300, strategy="incremental"):
+            max_seconds=None, sample_paths=3, max_concretise=300, strategy="incremental", path_seconds=None):
     """Run fn() once per feasible path.  fn may call assume/check and returns an optional sample dict."""
     c = Ctx(timeout_ms=timeout_ms, max_decisions=max_decisions, max_paths=max_paths, max_concretise=max_concretise,
             strategy=strategy)
+    if path_seconds is None:
+        path_seconds = float(os.environ.get("TLV_PATH_SECONDS", "300"))
     res = Result()
     prev = CUR[0]
     CUR[0] = c
@@ -1190,7 +1214,11 @@ def explore(fn, *, timeout_ms=60000, max_paths=200000, max_decisions=20000, max_
                 c.model = c.decisions[c.frozen_until].other_model
             outcome = None
             try:
-                ret = fn()
+                _arm_path_timer(c, path_seconds)
+                try:
+                    ret = fn()
+                finally:
+                    _arm_path_timer(c, None)
                 if c.sticky is not None:
                     raise c.sticky
                 outcome = "done"
